@@ -6,15 +6,12 @@ From PV Require Import Extract.RunC19.
 From PV Require Import Extract.RunC12.
 From PV Require Import Extract.RunC09.
 From PV Require Import Extract.RunC13.
-<<<<<<< HEAD
 From PV Require Import Extract.RunC06.
 From PV Require Import Extract.RunC20.
 From PV Require Import Extract.RunC15.
 From PV Require Import Extract.RunC18.
 From PV Require Import Extract.RunC16.
-=======
 From PV Require Import Extract.RunC14.
->>>>>>> build-C14
 Import ListNotations.
 Local Open Scope N_scope.
 
@@ -101,7 +98,6 @@ Definition run (cmd : N) (arg : sx) : sx :=
   | 134 => run_c13_4 arg
   | 135 => run_c13_5 arg
   | 136 => run_c13_6 arg
-<<<<<<< HEAD
   | 60 => run_c06_reduce arg
   | 61 => run_c06_climb arg
   | 62 => run_c06_opm arg
@@ -120,11 +116,9 @@ Definition run (cmd : N) (arg : sx) : sx :=
   | 160 => run_c16_build arg
   | 161 => run_c16_unsorted arg
   | 162 => run_c16_keys arg
-=======
   | 140 => run_c14_0 arg
   | 141 => run_c14_1 arg
   | 142 => run_c14_2 arg
   | 143 => run_c14_3 arg
->>>>>>> build-C14
   | _ => L [A 999999]
   end.
